@@ -25,6 +25,7 @@ struct Th {
 	bool yielding; bool cancel; bool cancellable; bool joined;
 	void* (*fn)(void*); void* arg;
 	uint64_t npoints;
+	bool detached; // pthread_detach was called on it (recorded always; acted upon only with set_strict_joins(true))
 };
 static Th T[MAXT];
 static int nT = 0;
@@ -39,6 +40,8 @@ static Result scratch_; // recording buffers reused across executions (no alloca
 static void (*fatal_handler)(const char*, const std::string&) = 0;
 static uint64_t (*state_probe)() = 0;
 static bool early_timeouts = true;
+static bool strict_joins = false; // opt-in: pthread_join on a detached thread or on the null handle is counted and refused instead of passed on
+static int invalid_joins_ = 0;    // such joins in the current (or last) execution
 static const double VBASE = 1700000000.0;
 
 // exploration-wide state cache (set by explore())
@@ -99,6 +102,8 @@ static void fatal(const char* what) {
 void set_fatal_handler(void (*h)(const char*, const std::string&)) { fatal_handler = h; }
 void set_state_probe(uint64_t (*p)()) { state_probe = p; }
 void set_early_timeouts(bool on) { early_timeouts = on; }
+void set_strict_joins(bool on) { strict_joins = on; }
+int invalid_joins() { return invalid_joins_; }
 
 static bool enabled(int t) {
 	Th& th = T[t];
@@ -250,7 +255,7 @@ Result run_once(const std::vector<uint8_t>& prefix, const std::function<void()>&
 	Result& r = scratch_; r.preemptions = 0; r.threads = 0; r.vtime = 0; r.fatal.clear();
 	r.choices.clear(); r.points.clear();
 	if (r.choices.capacity() < (size_t)step_limit + 8) { r.choices.reserve(step_limit + 8); r.points.reserve(step_limit + 8); } // no allocation by the scheduler while the body runs (harnesses measure heap deltas)
-	res_ = &r; prefix_ = prefix; step_limit_ = step_limit; nsteps = 0; vclock = 0; nmx = nsm = 0; cut_here = false;
+	res_ = &r; prefix_ = prefix; step_limit_ = step_limit; nsteps = 0; vclock = 0; nmx = nsm = 0; cut_here = false; invalid_joins_ = 0;
 	memset(T, 0, sizeof T); memset(condw, 0, sizeof condw);
 	nT = 1; T[0].state = ST_LIVE; T[0].pth = pthread_self();
 	me = 0; active = true;
@@ -332,9 +337,16 @@ extern "C" int pthread_create(pthread_t* th, const pthread_attr_t* attr, void* (
 extern "C" int pthread_join(pthread_t th, void** ret) {
 	resolve();
 	int found = -1;
+	if (managed() && strict_joins && th == (pthread_t)0) { T[me].pred = 0; switch_point(2); invalid_joins_++; return ESRCH; } // join on an empty handle (the real call would crash)
 	if (managed()) for (int t = nT - 1; t >= 0; t--) if (t != me && T[t].state != ST_UNUSED && !T[t].joined && pthread_equal(T[t].pth, th)) { found = t; break; } // newest first: the system reuses pthread_t values
+	if (found >= 0 && strict_joins && T[found].detached) { T[me].pred = 0; switch_point(2); invalid_joins_++; return EINVAL; } // join after detach: returns at once, the thread may still be running
 	if (found >= 0) { block_until(pred_thread_exited, &T[found], -1, 2, false); T[found].joined = true; }
 	return real_join(th, ret);
+}
+extern "C" int pthread_detach(pthread_t th) {
+	static int (*real)(pthread_t) = 0; if (!real) *(void**)&real = dlsym(RTLD_NEXT, "pthread_detach");
+	if (managed()) for (int t = nT - 1; t >= 0; t--) if (T[t].state != ST_UNUSED && !T[t].joined && !T[t].detached && pthread_equal(T[t].pth, th)) { T[t].detached = true; break; }
+	return real(th);
 }
 extern "C" int pthread_cancel(pthread_t th) {
 	if (managed()) {
